@@ -2,7 +2,9 @@ package harness
 
 import (
 	"fmt"
+	metav1 "k8s.io/apimachinery/pkg/apis/meta/v1"
 	"os"
+	"sort"
 	"strings"
 	"testing"
 	"time"
@@ -35,6 +37,8 @@ type c04Scenario struct {
 	Extra   []*corev1.Pod   `json:"extra"`   // pods that arrive between the passes
 	// TaintStyles: how the node's agent wrote the startup taints (per claim: "", value, timeAdded)
 	TaintStyles []string `json:"taintStyles,omitempty"`
+	// MidWindow: another controller creates a NodeClaim while pass 2 sits in its batching window
+	MidWindow bool `json:"midWindow,omitempty"`
 }
 
 func c04Knobs() gen.Knobs {
@@ -68,6 +72,7 @@ func drawC04(t *rapid.T) *c04Scenario {
 		p.UID = types.UID(fmt.Sprintf("extra-uid-%02d", i))
 		s.Extra = append(s.Extra, p)
 	}
+	s.MidWindow = dpct(t, 20, "midWindowClaim")
 	return s
 }
 
@@ -197,6 +202,44 @@ func execC04(s *c04Scenario, c *ev.Ctx) {
 			c.Violate("pass-while-unlaunched", "NodeClaims grew from %d to %d while an earlier NodeClaim was not launched", before, after)
 		}
 		c.NTIf(len(names) > 0)
+		return
+	}
+	if s.MidWindow && len(b.Pools) > 0 {
+		// (iii') the unlaunched NodeClaim appears while the pass waits out its batching window (another controller - static
+		// provisioning, a disruption replacement - created it): the pass that follows the window creates nothing
+		poolNames := make([]string, 0, len(b.Pools))
+		for n := range b.Pools {
+			poolNames = append(poolNames, n)
+		}
+		sort.Strings(poolNames)
+		pool := b.Pools[poolNames[0]]
+		intruder := &v1.NodeClaim{ObjectMeta: metav1.ObjectMeta{Name: "mid-window-claim", Labels: map[string]string{v1.NodePoolLabelKey: pool.Name}},
+			Spec: v1.NodeClaimSpec{NodeClassRef: pool.Spec.Template.Spec.NodeClassRef, Requirements: pool.Spec.Template.Spec.Requirements}}
+		w.ResetCalls()
+		b.Provisioner.Trigger("pass-2")
+		injected := false
+		w.RunBlocking(func() { _, _ = b.Provisioner.Reconcile(w.Ctx) }, 2*time.Second, func(n int) {
+			if !injected {
+				injected = true
+				w.Quiet(func() { _ = w.Client.Create(w.Ctx, intruder) })
+				w.Sync()
+			}
+		})
+		c.ClassIf(injected, "claim_created_during_batching_window")
+		for _, call := range w.Writes() {
+			if call.Verb == "create" && call.Kind == "NodeClaim" && call.Key != intruder.Name && injected {
+				c.Violate("pass-while-unlaunched:created-during-window", "Provisioner.Reconcile created NodeClaim %s although another controller created NodeClaim %s during the batching window and it has no provider id yet", call.Key, intruder.Name)
+			}
+		}
+		// would the pass have opened capacity at all?
+		if cur := w.GetNodeClaim(intruder.Name); cur != nil {
+			w.Remove(cur)
+		}
+		w.Sync()
+		if res, err := b.Provisioner.Schedule(w.Ctx); err == nil {
+			c.NTIf(injected && len(res.NewNodeClaims) > 0)
+			c.ClassIf(injected && len(res.NewNodeClaims) > 0, "blocked_pass_wanted_new_capacity")
+		}
 		return
 	}
 	res2, err := b.Provisioner.Schedule(w.Ctx)
@@ -434,7 +477,7 @@ var _ = pscheduling.MaxInstanceTypes
 var propC04 = ev.Prop[c04Scenario]{
 	ID: "C04", Test: "TestC04",
 	Rule: "rapid draws a scheduler world without inter-pod constraints, preferences, soft taints, minValues, limits or reservations; pass 1 (Provisioner.Schedule + CreateNodeClaims) runs; every created NodeClaim is driven by the REAL lifecycle controller to a generated point (unlaunched, launched, node present unregistered, registered with startup taints / unreported resources, initialized, initialized+pods bound) with a generated provider launch choice; 0-3 extra pods arrive; pass 2 runs; " +
-		"oracle: (i) no pod given capacity in pass 1 gets another NodeClaim or an error in pass 2, (ii) an extra pod gets a new NodeClaim only if no active existing / in-flight node admits it in the final state (admission oracle of C01), (iii) with an unlaunched NodeClaim present Provisioner.Reconcile creates nothing, (iv) nodes marked for deletion receive no pods, plus the C01 oracle on pass 2; " +
+		"oracle: (i) no pod given capacity in pass 1 gets another NodeClaim or an error in pass 2, (ii) an extra pod gets a new NodeClaim only if no active existing / in-flight node admits it in the final state (admission oracle of C01), (iii) with an unlaunched NodeClaim present Provisioner.Reconcile creates nothing, also (20% of the cases) when another controller creates that NodeClaim while the pass sits in its batching window, (iv) nodes marked for deletion receive no pods, plus the C01 oracle on pass 2; " +
 		"non-trivial = pass 2 ran with >=1 in-flight NodeClaim (not yet bound) that holds >=1 pod",
 	Assumptions: []string{"limits, minValues, reservations, preferences and inter-pod constraints are excluded because the code legitimately re-opens capacity there"},
 	Draw:        drawC04, Exec: execC04, ReplayTries: 5,
